@@ -171,6 +171,14 @@ SUITES["struct3n0"] = {
     "kinds": [1, 2, 3, 4, 5, 6], "depth": {"quick": 3, "thorough": 6}, "maxid": 8,
     "design_depth": {"quick": 2, "thorough": 4},
 }
+# attribute names chosen by the caller (time "t", position "position", track id "trk", lineage id "lin")
+SUITES["struct3k"] = {
+    "tla": SUITES["struct3"]["tla"],
+    "cfg": {"N": 3, "T": 3, "dims": [], "scale": [], "use_scale": True, "reg_cust": False, "per_axis_pos": False,
+            "name": "struct3k", "custom_keys": True},
+    "kinds": [1, 2, 3, 4, 5, 6, 12], "depth": {"quick": 3, "thorough": 6}, "maxid": 8,
+    "design_depth": {"quick": 2, "thorough": 3}, "sample": {"quick": 300, "thorough": 4000},
+}
 # the 4-node seed shapes (division, skip edge, grandchild ...) with node ids starting at 0
 SUITES["struct4n0"] = {
     "tla": SUITES["struct4s"]["tla"],
@@ -213,6 +221,10 @@ SUITES["feat333"]["extra_act"] = ["iou", "circ", "perim"]
 SUITES["feat333"]["cfg"]["max_stroke"] = 99
 SUITES["feat333"]["kinds"] = [2, 3, 4, 9]
 SUITES["feat333"]["seeds"] = "SeedsSeg333"
+# enable / disable calls are FIRED from every state (bulk computation with other labels inside a mask's bounding box) but
+# not used for exploration
+SUITES["feat333"]["fire_kinds"] = [2, 3, 4, 9, 10]
+SUITES["feat3d"]["fire_kinds"] = [2, 3, 4, 9, 10]
 SUITES["feat333"]["design_depth"] = {"quick": -1, "thorough": -1}
 
 # states in which a feature is registered and active but STALE (disable, edit, enable without recomputation):
